@@ -39,7 +39,7 @@ prop('C06',
           '{lalr/basic, lalr/contextual, earley/basic, earley/dynamic, earley/dynamic_complete} x str/bytes: every token of every result (and of Lark.lex) must satisfy '
           'text[start:end]==token and carry the stamp the Lean model computes for its span (proved equal to the source coordinates); the hypothesis of the theorem '
           '(terminals outside newline_types are newline-free strings) is evaluated on every generated lexer. Non-trivial = the text contains a newline; distinct by canonical hash.',
-     not_proved=['tree meta (propagate_positions): checked by the C03 harness against spans of the raw derivation; no Lean theorem yet'],
+     not_proved=['tree meta (propagate_positions) has no Lean theorem yet: every node\'s meta is compared with the first/last token of the yield of the derivation node it came from (identified through the Lean shape model, C03 stream with newline-bearing %ignore)'],
      assumptions=['str.count / str.rindex behave as specified', 'a PatternStr without a newline cannot match one'],
      level_text='Theorems token_stamp_exact / lexer_loop_exact / dynamic_stamp_exact: for every text and tiling the stamps written by the (modelled) lexer loop are exactly the 1-based '
                 'source coordinates, provided terminals outside newline_types cannot match a newline. The model functions are run against the real LineCounter and against every token the real '
@@ -146,3 +146,22 @@ prop('C02',
      level_note='Trusted: Lean kernel, standard axioms, harness (export of LALR_Analyzer state). The LR(1)-merge oracle is Python and only searches for failing inputs / cross-checks lookaheads.',
      technique='Lean 4 validator-style proofs (certificate => driver sound/complete) + reflection on lark\'s exported tables + decision-logic theorem for conflict reporting + differential correspondence',
      design_ref='DESIGN.md §5 C02')
+
+prop('C03',
+     modules=['LarkVerif.Shape', 'LarkVerif.Props.C03'],
+     theorems=['Props.C03.built_tree_is_documented_shaping', 'Props.C03.placeholders_in_grammar_order', 'Props.C03.expand1_single', 'Props.C03.alias_never_inlined', 'ShapeProto.applyPlan_eq_spec'],
+     fingerprints=['lark/parse_tree_builder.py:maybe_create_child_filter', 'lark/parse_tree_builder.py:ChildFilter.__call__', 'lark/parse_tree_builder.py:ChildFilterLALR.__call__',
+                   'lark/parse_tree_builder.py:ChildFilterLALR_NoPlaceholders.__call__', 'lark/parse_tree_builder.py:ExpandSingleChild.__call__', 'lark/parse_tree_builder.py:ParseTreeBuilder._init_builders',
+                   'lark/parse_tree_builder.py:ParseTreeBuilder.create_callback', 'lark/load_grammar.py:EBNF_to_BNF.expr'],
+     rule='random Lark sources using ?, !, _rules, _TERMINALS, aliases, [..], ?, *, +, ~n, ~n..m, groups, templates, priorities x keep_all_tokens x maybe_placeholders, compiled by the real front end; sentences sampled '
+          'from the compiled rules; engines earley/{dynamic,basic,dynamic_complete}, lalr/{contextual,basic}, cyk. For each engine the RAW derivation it found is obtained by running the same engine with raw '
+          '(rule, children) builders in place of the callback chain; the Lean buildList (proved equal to the documented shapeList) turns it into the expected tree (node and token identities carried as unique labels), '
+          'compared with the tree parse() returns. For inputs with a single derivation all engines that accept must return equal trees. Non-trivial = derivation with > 1 rule node; distinct by canonical hash.',
+     not_proved=['EBNF->BNF compilation (placeholder sizing by FindRuleSize, helper rules) is exercised through the real front end but not modelled: the theorem starts from lark\'s compiled rules and their options',
+                 'CYK: revert_cnf is covered by the raw-derivation comparison only'],
+     assumptions=['both runs of an engine (normal and raw builders) pick the same derivation (resolution is deterministic: C05)'],
+     level_text='Theorem built_tree_is_documented_shaping: for every annotated derivation forest the bottom-up callback chain (child filter with run-length/carry None placement, inlining, expand1, alias) yields exactly the documented '
+                'shaping. The Lean function is run on the raw derivations the real engines produce and compared with the trees they return, for all six engine/lexer pairs.',
+     level_note='Trusted: Lean kernel, standard axioms, harness (raw-builder substitution, label bookkeeping). Modelled not verified: load_grammar compilation, the engines\' search for a derivation (C01/C02).',
+     technique='Lean 4 structural-induction proof (code = documented shaping) over derivation forests + translation-validation style comparison on raw derivations from the real engines',
+     design_ref='DESIGN.md §5 C03')
